@@ -223,7 +223,23 @@ func runC16Case(c *Ctx, idx int) *CaseResult {
 						err = fmt.Errorf("panic: %v", p)
 					}
 				}()
-				err = rb.BuildRuleFromResource(k.name, k.ver, pkg.NewBytesResource([]byte(strings.Join(txt, "\n"))))
+				// one text, or one resource per rule through the multi-resource entry points
+				switch entry := r.Intn(5); {
+				case entry <= 1 && len(txt) > 1:
+					var rs []pkg.Resource
+					for _, t := range txt {
+						rs = append(rs, pkg.NewBytesResource([]byte(t)))
+					}
+					if entry == 0 {
+						err = rb.BuildRuleFromResources(k.name, k.ver, rs)
+						cr.inc("builds_through_BuildRuleFromResources")
+					} else {
+						err = rb.BuildRulesFromBundle(k.name, k.ver, sliceBundle(rs))
+						cr.inc("builds_through_BuildRulesFromBundle")
+					}
+				default:
+					err = rb.BuildRuleFromResource(k.name, k.ver, pkg.NewBytesResource([]byte(strings.Join(txt, "\n"))))
+				}
 			}()
 			log = append(log, fmt.Sprintf("build into %q/%q: %s -> error=%v", k.name, k.ver, strings.Join(txt, " | "), err != nil))
 			cr.inc("op_build")
@@ -408,3 +424,9 @@ func init() {
 		Run:    runC16Case,
 	})
 }
+
+// sliceBundle is a resource bundle over resources held in memory.
+type sliceBundle []pkg.Resource
+
+func (b sliceBundle) Load() ([]pkg.Resource, error) { return b, nil }
+func (b sliceBundle) MustLoad() []pkg.Resource      { return b }
